@@ -21,7 +21,7 @@ import propkit
 import vlib
 
 MANIFEST = {
-  "text": "proof: over R, on the Gallina definition regenerated from render_util.compute_ray: for a perspective camera given by fovy (sensorsize[1]=0) or by intrinsics (focal, principal point, sensor cropped to the image aspect) the pixel direction is the UNIT vector through the pixel centre ((px+1/2)/W,(py+1/2)/H) of the near-plane window, pointing along -z (closed-form components); for an orthographic camera compute_ray returns the optical axis for every pixel and the render kernel (hand model render_origin of the offset added in /repo 2e971a4) starts the ray at the pixel centre of the image window of height fovy: the ray is parallel to the axis, passes through that pixel's centre at every depth, and distinct pixels get distinct rays (this replaces the former `_refuted` theorem about the unrepaired kernel); _build_rays stores compute_ray(px,py) at offset+px+py*W and (px,py) is recovered by C rem/quot; the model render_pixel (copy of _render_megakernel + cast_ray: optional back-face cull, `d>=0 and d<best` update in any visiting order, depth = dist * -dir_z, seg = (geom, mjOBJ_GEOM), miss = depth 0 / seg (-1,-1)) returns the nearest eligible candidate (nearest_fold instance). tested only: float32, the Warp BVH traversal, mesh / hfield / flex / splat hits, extraction kernels; not covered: shading, textures",
+  "text": "proof: over R, on the Gallina definition regenerated from render_util.compute_ray: for a perspective camera given by fovy (sensorsize[1]=0) or by intrinsics (focal, principal point, sensor cropped to the image aspect) the pixel direction is the UNIT vector through the pixel centre ((px+1/2)/W,(py+1/2)/H) of the near-plane window, pointing along -z (closed-form components); for an orthographic camera compute_ray returns the optical axis for every pixel and the render kernel (hand model render_origin of the offset added in /repo 2e971a4) starts the ray at the pixel centre of the image window of height fovy: the ray is parallel to the axis, passes through that pixel's centre at every depth, and distinct pixels get distinct rays (this replaces the former `_refuted` theorem about the unrepaired kernel); _build_rays stores compute_ray(px,py) at offset+px+py*W and (px,py) is recovered by C rem/quot; the model render_pixel (copy of _render_megakernel + cast_ray: optional back-face cull, `d>=0 and d<best` update in any visiting order, depth = dist * -dir_z, seg = (geom, mjOBJ_GEOM), miss = depth 0 / seg (-1,-1)) returns the nearest eligible candidate (nearest_fold instance). the scene-BVH leaf layout written by build/refit (hand index of _compute_bvh_bounds whose stride argument total_bvh_size = bvh_ngeom + bvh_nflexgeom is read from the source on every run; translated _compute_flex_bvh_bounds) is read back by the ray kernels as the enabled geom in every world, flex leaves skipped, no collisions. tested only: float32, the Warp BVH traversal, the refitted leaf contents (checked per world after mjw.refit_bvh on moved scenes with a flex, nworld 2 and 3, together with depth / segmentation vs rays()), mesh / hfield / flex / splat hits, extraction kernels; not covered: shading, textures",
   "note": "trusted: Coq kernel; translator bin/translate.py (compute_ray / _build_rays / ray_geom validated each run against the compiled code); Model/Ray.v render_pixel hand model (validated per pixel against the real render kernel inside Coq on primitive scenes); real-number axioms of Coq's Reals; mjw.rays (property C34) as the reference the oracle compares the renderer with",
   "technique": "Rocq proof over functions machine-translated from the source (T) + hand model of the pixel pipeline, translation validation, kernel validation, per-pixel correspondence inside Coq, differential oracle render vs rays",
   "engine": "coq",
@@ -385,7 +385,7 @@ def oracle_flex_refit(res, nscenes):
 
 
 # ---------------------------------------------------------------- directed probes of recorded defects
-def probe_scene(xml, cull=False, groups=(0, 1, 2, 3, 4, 5), qpos=None, camera=0):
+def probe_scene(xml, cull=False, groups=(0, 1, 2, 3, 4, 5), qpos=None, camera=0, nworld=2):
   """render one camera of a fixed scene (nworld=2) and compare every pixel with rays along the property's
   pixel rays; for an orthographic camera the property's ray starts at the pixel centre of the image window
   of half-height fovy/2 (MuJoCo's orthographic convention) and runs along the optical axis."""
@@ -397,24 +397,27 @@ def probe_scene(xml, cull=False, groups=(0, 1, 2, 3, 4, 5), qpos=None, camera=0)
   m = mujoco.MjModel.from_xml_string(xml)
   d = mujoco.MjData(m)
   mujoco.mj_forward(m, d)
-  mm, dd = mjw.put_model(m), mjw.put_data(m, d, nworld=2)
+  mm, dd = mjw.put_model(m), mjw.put_data(m, d, nworld=nworld)
   if qpos is not None:
     import warp as wp
 
     dd.qpos = wp.array(np.array(qpos, dtype=np.float32), dtype=float)
     mjw.kinematics(mm, dd)
     mjw.camlight(mm, dd)
-  rc = render(m, mm, dd, cull, groups)
-  dep, seg, _, _ = images(rc, camera, 2)
-  dl, pnt, vec = pixel_rays(m, dd, camera, 2)
+    if m.nflex:
+      mjw.flex(mm, dd)
+  rc = render(m, mm, dd, cull, groups, nworld=nworld)  # builds the context at the default pose, refits to dd, renders
+  layout = refit_layout(m, mm, dd, rc, nworld)
+  dep, seg, _, _ = images(rc, camera, nworld)
+  dl, pnt, vec = pixel_rays(m, dd, camera, nworld)
   gg = [1 if g in groups else 0 for g in range(6)]
   dist, gid, nrm = C34.cast(mm, dd, pnt, vec, gg, True, np.full(W * H, -1))
-  gid = gid.reshape(2, H, W)
-  dist = dist.reshape(2, H, W)
+  gid = gid.reshape(nworld, H, W)
+  dist = dist.reshape(nworld, H, W)
   exp_depth = np.where(gid >= 0, dist * -dl[None, :, :, 2], 0.0)
-  bad = (seg[..., 0] != gid) | (np.abs(dep - exp_depth) > 1e-3 * (1 + np.abs(exp_depth)))
+  bad = ((seg[..., 0] != gid) | (np.abs(dep - exp_depth) > 1e-3 * (1 + np.abs(exp_depth)))) & (seg[..., 1] != OBJ_FLEX)
   return dict(xml=xml, cull=cull, groups=list(groups), rendered_seg=seg[0, :, :, 0].tolist(), expected_seg=gid[0].tolist(),
-              rendered_depth=np.round(dep[0], 4).tolist(), expected_depth=np.round(exp_depth[0], 4).tolist(), bad_pixels=int(bad.sum()), pixels=int(bad.size))  # fmt: skip
+              rendered_depth=np.round(dep[0], 4).tolist(), expected_depth=np.round(exp_depth[0], 4).tolist(), bad_pixels=int(bad.sum()), pixels=int(bad.size), bad_pixels_per_world=[int(b.sum()) for b in bad], refit_layout_errors=layout[:4])  # fmt: skip
 
 
 CAM = '<camera name="c" pos="0 -2 0.3" xyaxes="1 0 0 0 0 1" {extra}/>'
@@ -476,7 +479,7 @@ def run(res):
   quick = res.tier == "quick"
   res.rule = ("T-validation: random float32 camera parameters / pixels per projection and aspect branch; pixel correspondence: distinct (scene, world, camera, pixel); "
               "oracle: one evaluation per compared pixel, distinct = scenes")  # fmt: skip
-  ok, trs, failing = propkit.prove(res, PROPS, gen_names=["T_ray", "T_render_util"], required_funcs=REQ)
+  ok, trs, failing = propkit.prove(res, PROPS, gen_names=["T_bvh", "T_ray", "T_render_util"], required_funcs=REQ)
   lap("prove")
   trr, tru = trs.get("T_ray"), trs.get("T_render_util")
   tbad = []
@@ -511,6 +514,9 @@ def run(res):
     found = True
     if key not in seen:
       seen.add(key)
+      if f["kind"] == "refit-layout":
+        res.violation(key, f"after mjw.refit_bvh the scene-BVH leaf of a geom is not where _ray_bvh / cast_ray read it (nworld {f['nworld']}, flex in the model): {f['detail']}", f)
+        continue
       res.violation(key, f"rendered {f.get('rendered')} vs rays {f.get('expected')} ({f['kind']}, camera {f.get('camera')}, world {f.get('world')}, pixel ({f.get('px')},{f.get('py')}), {f.get('geom_types')})", f)
   pr = probes(res)
   lap("probes")
@@ -532,12 +538,14 @@ def replay(res, path):
   if isinstance(r, list) or "xml" not in r:
     print("replay: no concrete input in this file (proof/correspondence breakage); re-run the check")
     return 1
-  out = probe_scene(r["xml"], cull=r.get("cull", False), groups=tuple(r.get("groups", (0, 1, 2, 3, 4, 5))), qpos=r.get("qpos"), camera=r.get("camera", 0))
+  out = probe_scene(r["xml"], cull=r.get("cull", False), groups=tuple(r.get("groups", (0, 1, 2, 3, 4, 5))), qpos=r.get("qpos"), camera=r.get("camera", 0), nworld=r.get("nworld", 2))
   print("rendered segmentation (world 0):")
   for row in out["rendered_seg"]:
     print("  ", row)
   print("expected from rays():")
   for row in out["expected_seg"]:
     print("  ", row)
-  print("pixels differing:", out["bad_pixels"], "of", out["pixels"])
+  print("pixels differing:", out["bad_pixels"], "of", out["pixels"], "per world:", out["bad_pixels_per_world"])
+  if out["refit_layout_errors"]:
+    print("scene-BVH leaves after refit_bvh not where the ray kernels read them:", out["refit_layout_errors"])
   return 0
